@@ -220,7 +220,7 @@ Lemma istep_core : forall a b c, id_free c = true -> core_eq a b ->
   core_eq (fst (istep a c)) (fst (istep b c)) /\ snd (istep a c) = snd (istep b c).
 Proof.
   intros a b c Hf [Hsw [Hcur [Hself Hsels]]].
-  destruct c as [s v|s|n v|n|n| |v| |v| |v| | ]; simpl in Hf; try discriminate Hf;
+  destruct c as [s v|s|n v|n|n| |v| |v| |v| | | |ns]; simpl in Hf; try discriminate Hf;
     unfold core_eq; simpl; try (destruct (0 <=? n)); simpl;
     rewrite ?Hcur, ?Hself, ?Hsels, ?Hsw;
     (split; [split; [intros t; rewrite ?Hsw; reflexivity | repeat split; reflexivity] | reflexivity]).
